@@ -1,7 +1,6 @@
 package c20
 
 import (
-	"context"
 	"crypto/ecdsa"
 	"crypto/elliptic"
 	"crypto/rand"
@@ -249,11 +248,9 @@ func (w *world) cacheTypeKnown(typ string) bool {
 	known := true
 	func() {
 		defer func() { _ = recover() }()
-		cch, err := cache.Create(typ, map[string]any{}, nopWatcher{}, nopObserver{})
-		if err != nil {
+		// a cache created here has not been started: nothing to stop (the redis factories fail without options)
+		if _, err := cache.Create(typ, map[string]any{}, nopWatcher{}, nopObserver{}); err != nil {
 			known = !errors.Is(err, cache.ErrUnsupportedCacheType)
-		} else if cch != nil {
-			_ = cch.Stop(context.Background())
 		}
 	}()
 	w.cacheTypes[typ] = known
